@@ -3580,3 +3580,112 @@ def bf3(m, run):
         run.ob('BF3.basis-functions-exact', 'helpers.%s :: %d (knot vector, span%s) cases' % (name, cnt[name], ', function / order' if name.endswith(('one', 'ders')) else ''), not bad,
                'equal to the Cox-de Boor polynomials (their exact derivatives) on the whole span' if not bad else '%s: %s   [%d of %d cases]' % (bad[0][0], bad[0][1], len(bad), cnt[name]),
                'geomdl/helpers.py:%d in %s' % (fi.node.lineno, fi.key))
+
+
+# ====================================================================================== C02: derivative control points exactly
+def pk3(m, run):
+    """PK3: helpers.curve_deriv_cpts (A3.3) and helpers.surface_deriv_cpts (A3.7) interpreted on exact rational knots and symbolic control
+    points: PK[k][i] = (p - k + 1) / (U[r1+i+p+1] - U[r1+i+k]) (PK[k-1][i+1] - PK[k-1][i]) for every window (r1, r2) and order;
+    PKL[k][l][i][j] = the u-recursion applied k times and the v-recursion l times to the net window, for k + l <= order"""
+    from fractions import Fraction as F
+    from .skel import Sym
+    from .poly import Poly
+
+    def rec(P, kv, p, r1, order):
+        """P: list of lists of Poly (window already cut: P[i] = cpts[r1 + i])"""
+        out = [[list(x) for x in P]]
+        for k in range(1, order + 1):
+            prev, cur = out[-1], []
+            for i in range(len(P) - k):
+                den = kv[r1 + i + p + 1] - kv[r1 + i + k]
+                if den == 0:
+                    raise ZeroDivisionError      # a zero-length knot difference: outside the contract of A3.3 (case skipped by the caller)
+                cur.append([(a - b) * F(p - k + 1) * (1 / F(den)) for a, b in zip(prev[i + 1], prev[i])])
+            out.append(cur)
+        return out
+
+    def same(v, w):
+        s = _as_sym(v)
+        return s is not None and s.same(Sym(w))
+    fc, fs = m.func('helpers.curve_deriv_cpts'), m.func('helpers.surface_deriv_cpts')
+    bad, n = [], 0
+    curves = [(2, [F(0)] * 3 + [F(1, 3), F(2, 3)] + [F(1)] * 3), (3, [F(-1)] * 4 + [F(0), F(1, 2), F(1, 2), F(2)] + [F(3)] * 4)]
+    for p, kv in curves:
+        npts = len(kv) - p - 1
+        P = [[Poly.atom('P%d_%d' % (i, c)) for c in range(2)] for i in range(npts)]
+        windows = [(0, npts - 1)] + [(k - p, k) for k in range(p, npts) if kv[k] != kv[k + 1]]
+        for r1, r2 in windows:
+            for order in range(0, min(p, r2 - r1) + 1):
+                try:
+                    want = rec(P[r1:r2 + 1], kv, p, r1, order)
+                except ZeroDivisionError:
+                    continue
+                n += 1
+                sk = SK(m, {})
+                sk.exact = True
+                try:
+                    out = sk.call(fc, [2, p, list(kv), [[Sym(x) for x in row] for row in P]], {'rs': (r1, r2), 'deriv_order': order})
+                    why = None
+                    for k in range(order + 1):
+                        for i in range(r2 - r1 - k + 1):
+                            for c in range(2):
+                                if not same(out[k][i][c], want[k][i][c]):
+                                    why = 'PK[%d][%d][%d] is %s, A3.3 gives %r' % (k, i, c, repr(out[k][i][c])[:120], want[k][i][c])
+                                    break
+                            if why:
+                                break
+                        if why:
+                            break
+                except (IndexError, TypeError) as ex:
+                    why = 'result has the wrong shape (%s)' % ex
+                except Violation as v:
+                    why = '%s %s' % (v.msg, v.where())
+                except Unsupported as ex:
+                    raise AnalysisError('%s: interpreter met an unsupported construct: %s' % (fc.key, ex))
+                if why:
+                    bad.append(((p, [str(x) for x in kv], (r1, r2), order), why))
+    run.ob('PK3.derivative-control-points-exact', '%s :: %d (knot vector, window, order) cases' % (fc.key, n), not bad, 'A3.3 as a polynomial identity in the control points over rational knots' if not bad else
+           'degree %d, knots %s, window %s, order %d: %s   [%d of %d cases]' % (bad[0][0] + (bad[0][1], len(bad), n)), 'geomdl/helpers.py:%d in %s' % (fc.node.lineno, fc.key))
+    bad, n = [], 0
+    (p, kvu), (q, kvv) = curves[0], (1, [F(0), F(0), F(1, 4), F(1, 2), F(2), F(2)])
+    nu, nv = len(kvu) - p - 1, len(kvv) - q - 1
+    P = [[Poly.atom('P%d_%d_%d' % (i // nv, i % nv, c)) for c in range(2)] for i in range(nu * nv)]
+    for (r1, r2), (s1, s2) in (((0, nu - 1), (0, nv - 1)), ((1, 3), (1, 2)), ((2, 4), (2, 3))):
+        for order in range(0, 3):
+            n += 1
+            sk = SK(m, {})
+            sk.exact = True
+            try:
+                out = sk.call(fs, [2, [p, q], [list(kvu), list(kvv)], [[Sym(x) for x in row] for row in P], [nu, nv]], {'rs': (r1, r2), 'ss': (s1, s2), 'deriv_order': order})
+                why = None
+                # u-recursion on every v column of the window, then v-recursion on every row of each u-derivative net
+                cols = {j: rec([P[j + nv * i] for i in range(r1, r2 + 1)], kvu, p, r1, min(p, order)) for j in range(s1, s2 + 1)}
+                for k in range(0, min(p, order) + 1):
+                    for i in range(r2 - r1 - k + 1):
+                        row = [cols[j][k][i] for j in range(s1, s2 + 1)]
+                        vders = rec(row, kvv, q, s1, min(order - k, q))
+                        for l in range(0, min(order - k, q) + 1):
+                            for j in range(s2 - s1 - l + 1):
+                                for c in range(2):
+                                    if not same(out[k][l][i][j][c], vders[l][j][c]):
+                                        why = 'PKL[%d][%d][%d][%d][%d] is %s, A3.7 gives %r' % (k, l, i, j, c, repr(out[k][l][i][j][c])[:120], vders[l][j][c])
+                                        break
+                                if why:
+                                    break
+                            if why:
+                                break
+                        if why:
+                            break
+                    if why:
+                        break
+            except (IndexError, TypeError) as ex:
+                why = 'result has the wrong shape (%s)' % ex
+            except Violation as v:
+                why = '%s %s' % (v.msg, v.where())
+            except Unsupported as ex:
+                raise AnalysisError('%s: interpreter met an unsupported construct: %s' % (fs.key, ex))
+            if why:
+                bad.append((((r1, r2), (s1, s2), order), why))
+    run.ob('PK3.derivative-control-points-exact', '%s :: %d (windows, order) cases on a %d x %d net of degrees (%d, %d)' % (fs.key, n, nu, nv, p, q), not bad,
+           'A3.7 as a polynomial identity in the control points over rational knots' if not bad else
+           'windows %s / %s, order %d: %s   [%d of %d cases]' % (bad[0][0] + (bad[0][1], len(bad), n)), 'geomdl/helpers.py:%d in %s' % (fs.node.lineno, fs.key))
